@@ -1000,6 +1000,8 @@ impl<'l> CelCompiler<'l> {
                                         .into(),
                                 ]))
                         }
+                        // the syntax tree keeps the arguments in source order
+                        args_ast.reverse();
 
                         member_prime_node = args_node
                             .consume_child(member_prime_node)
